@@ -185,9 +185,17 @@ func (w *AuthWorld) State() AuState {
 	for _, key := range []string{ibcexported.StoreKey, transfertypes.StoreKey, icahosttypes.StoreKey, icacontrollertypes.StoreKey, upgradetypes.StoreKey} {
 		h.Write([]byte(lib.DigestOf(ctx, app.GetKey(key))))
 	}
+	// only the administrator-controlled part of a rate limit: its flow is reset (and the channel value re-read from
+	// the ever-growing supply) by the hourly epoch in BeginBlock, independently of any transaction
 	for _, rl := range app.RateLimitKeeper.GetAllRateLimits(ctx) {
-		bz, _ := proto.Marshal(&rl)
-		h.Write(bz)
+		if rl.Path != nil {
+			bz, _ := proto.Marshal(rl.Path)
+			h.Write(bz)
+		}
+		if rl.Quota != nil {
+			bz, _ := proto.Marshal(rl.Quota)
+			h.Write(bz)
+		}
 	}
 	st.Dig = lib.Hex(h.Sum(nil))[:16]
 	w.last = st
